@@ -39,7 +39,9 @@ impl State for Toy {
             // quadratic bowl
             0 => Some(-(x * x)),
             // every evaluation is better than the one before: every move is accepted
-            _ => Some(seen.len() as f64),
+            1 => Some(seen.len() as f64),
+            // quadratic bowl whose score is not a number outside |x| <= 1/2
+            _ => Some(if x.abs() > 0.5 { std::f64::NAN } else { -(x * x) }),
         }
     }
     fn generate_basis(&self) -> Vec<StandardBasis> { vec![StandardBasis::new(&self.x, -10., 10.)] }
@@ -211,18 +213,17 @@ fn d3b_every_pair_within_the_cutoff_is_counted() {
     assert!((reported + full).abs() < 1e-12, "score {} but the lattice energy per molecule within the cutoff is {}", reported, full);
 }
 
-/// D10 (C08/C07): a proposal clamped onto a special position (x = -1/2 in a mirror group) puts two LJ molecules on top
-/// of each other; the pair energy is inf - inf = NaN, `min(NaN, 1) = 1` accepts it, and the optimiser returns a state
-/// whose score is NaN instead of a finite, defined score.
+/// D10 (C07/C08/C05): a score that is not a number is accepted with certainty (`min(NaN, 1) = 1`), and from a NaN score every
+/// later move is accepted too.  Real LJ states reach it: a site clamped onto x = -1/2 in a mirror group puts two molecules on
+/// top of each other and the pair energy is inf - inf = NaN (PotentialState p1m1, trimer, x = -0.5, angle 0: score Some(NaN)).
+/// Shown here with a scripted state whose score is NaN beyond |x| > 1/2: the zero-temperature hill-climb ends below its start.
 #[test]
-fn d10_optimiser_returns_a_finite_score() {
-    use packing::{LJShape2, PotentialState};
-    let wg = get_wallpaper_group(WallpaperGroups::p1m1).unwrap();
-    for seed in 0..6 {
-        let st = PotentialState::from_group(LJShape2::from_trimer(0.637556, 120., 1.), &wg).unwrap();
-        let res = BuildOptimiser::default().seed(seed).steps(2000).inner_steps(200).kt_start(0.).kt_ratio(Some(0.)).max_step_size(8.)
-            .build().optimise_state(st);
-        let s = res.score();
-        assert!(s.map_or(false, |v| v.is_finite()), "seed {}: optimiser returned a state with score {:?}", seed, s);
+fn d10_nan_score_is_never_accepted() {
+    for seed in 0..10 {
+        let start = toy(0., 2);
+        let res = BuildOptimiser::default().seed(seed).steps(400).inner_steps(100).kt_start(0.).kt_ratio(Some(0.)).max_step_size(0.2)
+            .build().optimise_state(start);
+        let s = res.score().unwrap();
+        assert!(s >= 0., "seed {}: hill-climb from the maximum 0 ended at {}", seed, s);
     }
 }
